@@ -267,7 +267,7 @@ def work(item):
         return recs
 
     try:
-        return fix_replay_payload(obl.run_instance(name, b, consume, max_paths=4))
+        return fix_replay_payload(obl.run_instance(name, b, consume, max_paths=32))
     except (TypeError, AttributeError, IndexError, KeyError, ValueError, NotImplementedError) as e:
         import traceback
 
